@@ -1,4 +1,5 @@
 import HmcVerif.Model.DistAlg
+import HmcVerif.Model.BoxTree
 import HmcVerif.Exec.Targets
 /-
   Executable model of the whole distribution algebra of hmclab.Distributions.base / Transforms:
@@ -78,6 +79,26 @@ partial def ebox : DExpr → Box
       ⟨if lo.anyP (fun x => x > 0.0 - finf) then some lo else none, if up.anyP (fun x => x < finf) then some up else none⟩
   | e => box e
 end
+
+/-- one coordinate of a box -/
+def boxFn (b : Box) : Nat → BoxTree.B1 Float := fun i => (b.lb.map (·.get i), b.ub.map (·.get i))
+
+/-- the expression as far as bounds are concerned (Model/BoxTree.lean, about which `ebox_support` is proved) -/
+partial def toE : DExpr → BoxTree.E Float
+  | additive parts own => .additive (match parts with | p :: _ => dim p | [] => 0) (boxFn own) (parts.map toE)
+  | composite parts own => .composite (boxFn own) (parts.map toE)
+  | e => .leaf (dim e) (boxFn (box e))
+
+/-- do the vectors of `ebox` (with their infinities) and the per-coordinate options of `BoxTree.ebox`
+    describe the same box? (`none` = no bound = ∓inf) -/
+def layersAgree (e : DExpr) : Bool :=
+  let b := ebox e
+  let t := toE e
+  (List.range (dim e)).all (fun i =>
+    let c := BoxTree.ebox t i
+    let lo := match b.lb with | some v => v.get i | none => 0.0 - finf
+    let hi := match b.ub with | some v => v.get i | none => finf
+    (c.1.getD (0.0 - finf) == lo) && (c.2.getD finf == hi))
 
 def slice (x : FVec) (start len : Nat) : FVec := ⟨x.a.extract start (start + len)⟩
 
